@@ -259,7 +259,7 @@ fn has_complete_tag(s: &str) -> bool {
 
 fn strip(report: &Report, k: u32) {
     let parser = cfgs::parser(Config::Stdlib);
-    let alpha = ['<', '>', '!', '-', '/', 's', 'c', 'r', 'i', 'p', 't', 'a', '\n', 'y', 'l', 'e', ' '];
+    let alpha = ['<', '>', '!', '-', '/', 's', 'c', 'r', 'i', 'p', 't', 'a', '\n', 'y', 'l', 'e', ' ', '"', '\''];
     let total = seq_count(alpha.len() as u64, k);
     let name = format!("strip_html/len<={k}");
     let nontriv = AtomicU64::new(0);
@@ -297,7 +297,7 @@ fn strip(report: &Report, k: u32) {
     );
     // long-ish look-alikes that need more than k characters
     let mut n = 0;
-    for s in ["<script>x</script>y", "<SCRIPT a>x</ScRiPt>y<b>", "<style>a{}</style>z", "<!-- c -->d", "<!--<a>-->e", "<scr<script>x</script>ipt>y", "a<\nb\n>c", "<<a>>", "<a><b", "x<!---->y<!-- -", "<script><script>a</script></script>b"] {
+    for s in ["<script>x</script>y", "<SCRIPT a>x</ScRiPt>y<b>", "<style>a{}</style>z", "<!-- c -->d", "<!--<a>-->e", "<scr<script>x</script>ipt>y", "a<\nb\n>c", "<<a>>", "<a><b", "x<!---->y<!-- -", "<script><script>a</script></script>b", "<img src=x onerror=alert(1) \">", "<a '>x</a>", "<a title=\"a > b\">x</a>", "<a title='>' \">x", "<b \"'>y"] {
         n += 1;
         let o = render(&parser, report, "strip_html", s);
         match &o {
